@@ -1,4 +1,7 @@
+pub mod c03;
 pub mod c04;
 pub mod c05;
 pub mod c09;
+pub mod c10;
 pub mod c12;
+pub mod c13;
